@@ -36,5 +36,12 @@ for sid in sorted(os.listdir(ROOT)):
         "check_results": checks or [],
         "caught_by": caught,
     }
+    # remarks written by hand (e.g. a seed that an upstream repair made ineffective): seeded/<id>/remark.json {"remark": ..., "caught_by": [...]}
+    rk = os.path.join(d, "remark.json")
+    if os.path.exists(rk):
+        r = json.load(open(rk))
+        meta["remark"] = r.get("remark", "")
+        if "caught_by" in r:
+            meta["caught_by"] = caught = r["caught_by"]
     json.dump(meta, open(os.path.join(d, "meta.json"), "w"), indent=1)
     print(sid, "caught by", caught or "NOTHING", "| demo", run.get("demo_clean_exit"), run.get("demo_patched_exit"))
